@@ -1,7 +1,9 @@
 from __future__ import annotations
 
+from pathlib import Path
 from typing import Any, Optional
 
+from tumfl.AST.ASTNode import ASTNode
 from tumfl.AST.Expression.Expression import Expression
 from tumfl.AST.Expression.Name import Name
 from tumfl.Token import Token
@@ -40,3 +42,13 @@ class LocalAssign(Statement):
         super().__init__(token, "LocalAssign")
         self.variable_names: list[AttributedName] = variable_names
         self.expressions: Optional[list[Expression]] = expressions
+
+    def parent(
+        self, parent: Optional[ASTNode], file_name: Optional[Path] = None
+    ) -> None:
+        super().parent(parent, file_name)
+        # the names are wrapped in AttributedName, which is not a node itself
+        for variable_name in self.variable_names:
+            variable_name.name.parent(self, file_name)
+            if variable_name.attribute:
+                variable_name.attribute.parent(self, file_name)
